@@ -57,6 +57,12 @@ namespace rkcommon {
           initTaskSystemInternal(-1);
 
         g_ts->AddTaskSetToPipe(task);
+
+        // Without worker threads nobody else would ever run the task (it would
+        // sit in the pipe until some later wait or the shutdown): run it now
+        // on the calling thread, like the Debug tasking system does.
+        if (g_ts->GetNumTaskThreads() == 1)
+          g_ts->WaitforTask(task);
       }
 
       void waitInternal(Task *task)
